@@ -103,3 +103,12 @@ Proof.
   - destruct (c_outer cfg); cbn; auto.
   - destruct (c_inner cfg); cbn; auto.
 Qed.
+
+(* without key elements (empty credentials) nothing is ever returned *)
+Theorem decrypt4_no_credentials sha256 sha512 hmac256 kdf outer_dec decompress file e r :
+  decrypt4 sha256 sha512 hmac256 kdf outer_dec decompress file (Err e) <> Ok r.
+Proof.
+  unfold decrypt4. destruct (parse_outer_header file) as [[[v h] hlen]| | |]; cbn [bind]; try discriminate.
+  destruct (Nat.ltb _ _); [discriminate|].
+  destruct (negb _); [discriminate|]. cbn [bind]. discriminate.
+Qed.
